@@ -536,6 +536,77 @@ func runC16(s *Sim) {
 			s.Violate("C16.inbound-reply-order", "", "ReceiveReplyCall returned %v, the broker sent %v", firstN(got, 8), firstN(inboundReplies, 8))
 		}
 	}
+	// ---- probe: a reply that is delayed across a reconnect still reaches its caller ----
+	if l := link(); l != nil && s.Idle(0) && t.Bool("probe-reply-across-reconnect", 1, 2) {
+		variant := Pick(t, "probe-variant", "ack-then-cut", "cut-then-call")
+		n++
+		name := fmt.Sprintf("probe%d", n)
+		op := y.sendCallOp("call-wait", name, "payload-"+name, "")
+		op.CtxKind, op.Timeout = "deadline", 120*time.Second
+		findCall := func() *bCall {
+			var last *bCall
+			for _, c := range b.Calls {
+				if c.Msg.Name == name {
+					last = c
+				}
+			}
+			return last
+		}
+		releaseAck := func() bool {
+			c := findCall()
+			if c == nil {
+				return false
+			}
+			for _, p := range append([]*pend(nil), b.Pend...) {
+				if p.Kind == "callack" && p.Desc == "callack "+c.Msg.CallID {
+					b.Release(p, nil)
+				}
+			}
+			y.flushLinks()
+			return true
+		}
+		armed := true
+		if variant == "ack-then-cut" {
+			s.Start(0, op)
+			s.Wait()
+			y.flushLinks()
+			armed = releaseAck() // the caller has its ack and now waits for the reply
+			s.Wait()
+			l.Kill(errClosed, errClosed)
+		} else {
+			l.Kill(errClosed, errClosed)
+			s.Wait()
+			s.Start(0, op) // issued during the outage: sent after recovery
+			s.Wait()
+		}
+		s.Stat("fault.cut")
+		for i := 0; i < 60 && (link() == nil || link() == l); i++ {
+			y.Advance(time.Second)
+		}
+		y.Pump()
+		y.Advance(time.Second)
+		y.Pump()
+		nl := link()
+		if variant == "cut-then-call" && nl != nil && nl != l {
+			y.PumpUntil(func() bool { return findCall() != nil }, 500*time.Millisecond, 20*time.Second)
+			armed = releaseAck()
+		}
+		if c := findCall(); armed && c != nil && nl != nil && nl != l && !op.harvested {
+			s.Stat("env.reply-delivered-after-reconnect")
+			b.EmitCall(nl, "rep-"+c.Msg.CallID, c.Msg.CallID, "peer", "reply-to-"+name, []byte("reply-payload-"+name))
+			y.PumpUntil(func() bool { return op.harvested }, 100*time.Millisecond, 10*time.Second)
+			switch {
+			case !op.harvested:
+				s.Violate("C16.reply-lost-across-reconnect", variant, "SendCallAndWaitReplayCall(%s): the call was acknowledged, the connection was lost and re-established, and the reply (request call id %s) arrived on the new connection, but the caller is still waiting 10 s later", name, c.Msg.CallID)
+			case op.Err != nil:
+				s.Violate("C16.reply-lost-across-reconnect", variant+":"+errClass(op.Err), "SendCallAndWaitReplayCall(%s) failed with %q although its reply arrived after the reconnect, well within its deadline", name, errString(op.Err))
+			default:
+				if r, ok := op.Res.(*iscp.DownstreamReplyCall); !ok || r == nil || r.RequestCallID != c.Msg.CallID || string(r.Payload) != "reply-payload-"+name {
+					s.Violate("C16.wrong-reply", "across-reconnect", "SendCallAndWaitReplayCall(%s) returned %+v after the reconnect", name, op.Res)
+				}
+			}
+		}
+	}
 	s.Nontrivial()
 	s.sample = map[string]any{"calls": len(calls), "inbound_calls": len(inboundCalls), "replies": len(inboundReplies), "with_cut": withCut}
 	for _, tk := range s.tasks {
